@@ -32,7 +32,11 @@ def scratch(patch, base=None):
 
 BASE2 = "0ca368f"  # the commit the second refactoring campaign (selftest/benign/R*.diff) was written against
 
+BASE3 = "a7bae30"  # third refactoring campaign (selftest/benign/S*.diff)
+
 def benign_base(name):
+    if name.startswith("S"):
+        return BASE3
     return BASE2 if name.startswith("R") else BASE
 
 _base_alarms = {}
